@@ -18,6 +18,7 @@ import ASV.Proofs.Rotation
 import ASV.Proofs.Rules
 import ASV.Proofs.RotationStages
 import ASV.Proofs.RuleOrder
+import ASV.Model.DetectRecord
 namespace ASV.C07
 open ASV ASV.Rules ASV.Proto ASV.Chains
 
@@ -249,6 +250,43 @@ theorem strip_inferior_only_by_superiors (rules : List RuleM) (hd : NamesDistinc
     simp only [hx, pure, Except.pure, Except.ok.injEq] at hf
     subst hf
     exact hk
+
+/-! ### what does *not* hold: the superiors step on a ring (KF-C07-superior-overlap = KF-C03-superior-overlap)
+
+  The full rotation statement for the code model would be
+    `def DetectionRotationInvariant : Prop := ∀ r r' rules, (r' is r re-indexed by some k) →
+        membership r' rules = membership r rules   (up to order)`
+  and the full sub-selection statement "the protoclusters of a rule are those it has on its own minus the
+  ones a superior's core covers".  Both fail for the same reason: `remove_redundant_protoclusters` also
+  drops a protocluster whose first/last core genes *interleave* (in record order) with those of a superior's
+  protocluster (C03 `redundant_iff`, `not_droppedOnlyWhenCovered`); record order changes with the origin. -/
+
+def kfRules : List RuleM :=
+  [⟨"sup", 3, 1, .group false [.single false "s"], [], none⟩,
+   ⟨"inf", 3, 1, .group false [.single false "i"], ["sup"], none⟩]
+/-- ring of 29: genes 1 [0,2), 2 [4,6), 0 [8,10), all with profile `i`, gene 2 also with `s` -/
+def kfBase : Rec := ⟨29, true,
+  [⟨1, .simple ⟨0, 2, .fwd⟩, [("i", 0)], true⟩, ⟨2, .simple ⟨4, 6, .fwd⟩, [("i", 0), ("s", 0)], true⟩,
+   ⟨0, .simple ⟨8, 10, .fwd⟩, [("i", 0)], true⟩]⟩
+/-- the same record with base 2 chosen as the origin (gene 1 now sits at [27,29)) -/
+def kfRotated : Rec := ⟨29, true,
+  [⟨2, .simple ⟨2, 4, .fwd⟩, [("i", 0), ("s", 0)], true⟩, ⟨0, .simple ⟨6, 8, .fwd⟩, [("i", 0)], true⟩,
+   ⟨1, .simple ⟨27, 29, .fwd⟩, [("i", 0)], true⟩]⟩
+
+/-- negation witness (rotation): the inferior chain {1, 2, 0} is dropped on one origin and reported on
+    the other, although the superior core (gene 2) covers it on neither -/
+theorem superior_removal_depends_on_origin_witness :
+    membership kfBase kfRules = some [("sup", [2])] ∧
+    membership kfRotated kfRules = some [("sup", [2]), ("inf", [1, 2, 0])] := by
+  constructor <;> decide +kernel
+
+/-- negation witness (sub-selection): on its own the inferior rule reports the chain that disappears
+    when the superior rule is listed, although the superior core does not cover it -/
+theorem superior_removal_beyond_cover_witness :
+    membership kfBase [⟨"inf", 3, 1, .group false [.single false "i"], ["sup"], none⟩] = some [("inf", [1, 2, 0])] ∧
+    membership kfBase kfRules = some [("sup", [2])] ∧
+    locationContainsOther (.simple ⟨4, 6, .fwd⟩) (.simple ⟨0, 10, .fwd⟩) = false := by
+  refine ⟨?_, ?_, ?_⟩ <;> decide +kernel
 
 /-! ### non-vacuity -/
 
